@@ -60,8 +60,30 @@ Definition has_block (k : kind) : bool :=
 (* child i of k is a statement of a block *)
 Definition stmt_pos (k : kind) (i : nat) : bool := has_block k && (hdr k <=? i).
 
+(* identifier tokens of an attribute text such as #[cfg(not(test))] or #[tokio::test(flavor = "multi_thread")]:
+   maximal runs of letters, digits and _ that start with a letter or _, outside string literals (tree-sitter types
+   the path segments and the names inside the attribute's token tree as `identifier`) *)
+Definition is_ident_start (a : ascii) : bool :=
+  let n := nat_of_ascii a in ((65 <=? n) && (n <=? 90)) || ((97 <=? n) && (n <=? 122)) || (n =? 95).
+Definition is_ident_char (a : ascii) : bool :=
+  let n := nat_of_ascii a in is_ident_start a || ((48 <=? n) && (n <=? 57)).
+Definition flush (cur : string) : list string := match cur with EmptyString => [] | _ => [cur] end.
+Fixpoint attr_tokens (s : string) (instr : bool) (cur : string) : list string :=
+  match s with
+  | EmptyString => flush cur
+  | String a r =>
+    if instr then attr_tokens r (negb (Ascii.eqb a """"%char)) ""
+    else if Ascii.eqb a """"%char then flush cur ++ attr_tokens r true ""
+    else if is_ident_char a && (negb (String.eqb cur "") || is_ident_start a)
+         then attr_tokens r false (cur ++ String a EmptyString)
+    else flush cur ++ attr_tokens r false ""
+  end.
+Definition pre_idents (pre : list sib) : list string :=
+  flat_map (fun s => match s with SAttr t => attr_tokens t false "" | SComment => [] end) pre.
+
 (* identifier tokens of a node (tree-sitter `identifier` leaves): outside macro invocations method
-   and field names are field_identifiers; inside a macro's token tree every name is an identifier *)
+   and field names are field_identifiers; inside a macro's token tree every name is an identifier.
+   The attributes of an item are siblings that precede it: their tokens are counted with the item. *)
 Fixpoint idents (m : bool) (n : node) : list string :=
   match n with
   | N k cs =>
@@ -69,7 +91,8 @@ Fixpoint idents (m : bool) (n : node) : list string :=
     match k with
     | KId x => [x]
     | KLet b => b :: sub
-    | KFn _ _ name => name :: sub
+    | KFn pre _ name => pre_idents pre ++ name :: sub
+    | KMod pre => pre_idents pre ++ sub
     | KField name | KMethod _ _ _ name => if m then name :: sub else sub
     | KCall _ _ path => path ++ sub
     | KClosure p => p :: sub
@@ -80,10 +103,35 @@ Fixpoint idents (m : bool) (n : node) : list string :=
   end.
 
 (* ------------------------------------------------------------------ reports and options *)
-(* one violation: rule id, 1-based line, 0-based column *)
-Definition rep := (string * nat * nat)%type.
+(* one violation: rule id, 1-based line, 0-based column, message *)
+Definition rep := (string * nat * nat * string)%type.
+(* numbers first and lazily: the VM evaluates both arguments of && *)
 Definition rep_eqb (a b : rep) : bool :=
-  match a, b with (r1, l1, c1), (r2, l2, c2) => String.eqb r1 r2 && (l1 =? l2) && (c1 =? c2) end.
+  match a, b with (r1, l1, c1, m1), (r2, l2, c2, m2) =>
+    if l1 =? l2 then if c1 =? c2 then if String.eqb r1 r2 then String.eqb m1 m2 else false else false else false end.
+
+(* source lines (text between newlines) of the rows that carry a call, by 0-based row *)
+Definition srclines := list (nat * string).
+Fixpoint line_at (ls : srclines) (row : nat) : string :=
+  match ls with
+  | [] => ""
+  | (r, t) :: rest => if r =? row then t else line_at rest row
+  end.
+
+(* str.strip(): leading and trailing ASCII whitespace removed *)
+Definition is_space (a : ascii) : bool :=
+  let n := nat_of_ascii a in ((9 <=? n) && (n <=? 13)) || ((28 <=? n) && (n <=? 32)).
+Fixpoint lstrip (s : string) : string :=
+  match s with String a r => if is_space a then lstrip r else s | EmptyString => s end.
+Fixpoint rstrip (s : string) : string :=
+  match s with
+  | EmptyString => EmptyString
+  | String a r => match rstrip r with
+                  | EmptyString => if is_space a then EmptyString else String a EmptyString
+                  | r' => String a r'
+                  end
+  end.
+Definition strip (s : string) : string := rstrip (lstrip s).
 
 (* a linter section as written in the configuration: boolean options by key *)
 Definition options := list (string * bool).
